@@ -453,13 +453,24 @@ fn eval_pdiff(prop: &str, pc: PCase, what: &str) -> CaseRec {
                         }
                         DiffLine::UnexpectedLines { lines: ls } => {
                             for (i, b) in ls {
-                                let mut b = b.clone();
-                                if b.last() != Some(&b'\n') {
-                                    b.extend(b" (no-eol)");
+                                // the line in expectation syntax: escaped when it has to be, and the no-eol marker
+                                // BEHIND the escaping (the marker is no content of the line; the escaped kind ignores
+                                // the line ending). Since fix ebd481f; before, the marker was escaped as content.
+                                let eol = b.last() == Some(&b'\n');
+                                let content: &[u8] = if eol { &b[..b.len() - 1] } else { &b[..] };
+                                let mut text = pc.escaper.escaped_expectation(content);
+                                if !eol && !pc.escaper.has_unprintable(content) {
+                                    text.push_str(" (no-eol)");
                                 }
-                                let want = disp(&pc.escaper.escaped_expectation(&b));
+                                let want = disp(&text);
                                 if !lines.iter().any(|b| b.sym == '+' && b.content == want) {
-                                    fails.push(("C19:missing-difference".into(), format!("pretty: unexpected line #{i} {:?} not shown :: {}", clip(&want), witness(&pc))));
+                                    // what IS shown for it: a text that, read as an expectation, denotes another line?
+                                    let mk = maker();
+                                    let shown_other = lines.iter().filter(|l| l.sym == '+').any(|l| {
+                                        l.content.contains("(no-eol) (escaped)") && mk.parse(&l.content).map(|e| !e.matches(b)).unwrap_or(false)
+                                    });
+                                    let class = if shown_other { "C19:unexpected-line-shown-as-other-line" } else { "C19:missing-difference" };
+                                    fails.push((class.into(), format!("pretty: unexpected line #{i} {:?} not shown :: {}", clip(&want), witness(&pc))));
                                 }
                             }
                         }
